@@ -65,7 +65,7 @@ End F.
 Theorem fragment_is_match_spec prog input fl o r s :
   p_op prog = make_sequence o OEnd ->
   plain (p_hasbackrefs prog) (p_maxparens prog) o ->
-  lowers (p_case prog) fl o r -> s_i fl = p_case prog -> s_m fl = p_multi prog ->
+  lowers input (p_case prog) fl o r -> s_i fl = p_case prog -> s_m fl = p_multi prog ->
   (p_hasbol prog = false /\ p_minlen prog = 0%N /\ p_prefix prog = None /\ p_icc prog = None /\ p_pre prog = []) ->
   length (sb s) = length (eb s) ->
   ((exists s', matches prog input 0 s = MTrue s') <-> spec_is_match fl input r = true).
@@ -102,10 +102,10 @@ Example ex_shape : p_op ex_prog = make_sequence ex_op OEnd.
 Proof. reflexivity. Qed.
 Example ex_plain : plain false 1 ex_op.
 Proof. cbn. repeat split; auto; discriminate. Qed.
-Example ex_lowers : lowers false ex_fl ex_op ex_re.
+Example ex_lowers : forall input, lowers input false ex_fl ex_op ex_re.
 Proof.
-  cbn [lowers ex_op ex_re unnc]. eexists. split; [reflexivity|]. repeat split.
-  - eexists. split; [reflexivity|]. intros c. cbn. rewrite !orb_false_r. reflexivity.
+  intros input. cbn [lowers ex_op ex_re unnc]. eexists. split; [reflexivity|]. repeat split.
+  - eexists. split; [reflexivity|]. intros c _. cbn. rewrite !orb_false_r. reflexivity.
   - eexists. split; [reflexivity|]. repeat split.
     + right. eexists. split; reflexivity.
     + left. reflexivity.
